@@ -159,10 +159,12 @@ package ledger
 //@   property C35 C38
 //@   requires h.store != nil
 //@   requires (property == "address" || property == "account") && operator != "$in" ==> is(value, string)
+//@   requires (property == "address" || property == "account") && operator == "$in" ==> is(value, []any) && forall j int :: {value.([]any)[j]} 0 <= j && j < len(value.([]any)) ==> is(value.([]any)[j], string)
 //@   requires (property == "first_usage" || property == "insertion_date" || property == "updated_at") ==> ordOps(operator)
 //@   requires (property == "first_usage" || property == "insertion_date" || property == "updated_at") && is(value, string) ==> parsesTime(value.(string))
 //@   requires keyOf(property) == "balance" ==> numMapOps(operator)
 //@   requires keyOf(property) == "metadata" ==> strMapOps(operator)
+//@   ensures err != nil ==> isErr(err, common.ErrInvalidQuery) || isErr(err, ErrMissingFeature)
 //@   modifies qWhere, qWhereCount, qOrderExpr
 //@   ensures (property != "address" && property != "account" && property != "first_usage" && property != "insertion_date" && property != "updated_at" && (reMatch(balanceRegex, property) || property == "balance") && opts.PIT != nil && !tzero(deref(opts.PIT)) && h.store.ledger.Features["MOVES_HISTORY"] != "ON") ==> err != nil && isErr(err, ErrMissingFeature)
 //@   ensures (property != "address" && property != "account" && property != "first_usage" && property != "insertion_date" && property != "updated_at" && (reMatch(balanceRegex, property) || property == "balance") && opts.PIT != nil && !tzero(deref(opts.PIT)) && h.store.ledger.Features["MOVES_HISTORY_POST_COMMIT_EFFECTIVE_VOLUMES"] != "SYNC") ==> err != nil && isErr(err, ErrMissingFeature)
@@ -171,8 +173,10 @@ package ledger
 //@   property C38
 //@   requires property == "reverted" ==> is(value, bool)
 //@   requires (property == "account" || property == "source" || property == "destination") && operator != "$in" ==> is(value, string)
+//@   requires (property == "account" || property == "source" || property == "destination") && operator == "$in" ==> is(value, []any) && forall j int :: {value.([]any)[j]} 0 <= j && j < len(value.([]any)) ==> is(value.([]any)[j], string)
 //@   requires property == "id" ==> ordOps(operator)
 //@   requires property == "reference" ==> strOps(operator)
+//@   ensures err != nil ==> isErr(err, common.ErrInvalidQuery) || isErr(err, ErrMissingFeature)
 //@   requires (property == "timestamp" || property == "inserted_at" || property == "updated_at" || property == "reverted_at") ==> ordOps(operator)
 //@   requires (property == "timestamp" || property == "inserted_at" || property == "updated_at" || property == "reverted_at") && is(value, string) ==> parsesTime(value.(string))
 //@   note the requires are what queries.TypeBoolean / TypeString.ValidateValue establish for these properties (entity schema TransactionSchema); the walk of the filter tree that connects them (go-libs query.Builder) is not under contract
@@ -186,17 +190,28 @@ package ledger
 //@   requires (property == "date") && is(value, string) ==> parsesTime(value.(string))
 //@   requires property == "id" ==> ordOps(operator)
 //@   requires property == "type" ==> strOps(operator)
+//@   ensures err != nil ==> isErr(err, common.ErrInvalidQuery) || isErr(err, ErrMissingFeature)
 
 //@ func (h schemasResourceHandler) ResolveFilter(q common.ResourceQuery[any], operator string, property string, value any) (s string, args []any, err error)
 //@   property C38
 //@   requires property == "created_at" ==> ordOps(operator)
 //@   requires (property == "created_at") && is(value, string) ==> parsesTime(value.(string))
 //@   requires property == "version" ==> strOps(operator)
+//@   ensures err != nil ==> isErr(err, common.ErrInvalidQuery) || isErr(err, ErrMissingFeature)
 
 //@ func (h volumesResourceHandler) ResolveFilter(q common.ResourceQuery[ledger.GetVolumesOptions], operator string, property string, value any) (s string, args []any, err error)
 //@   property C38
 //@   requires (property == "address" || property == "account") && operator != "$in" ==> is(value, string)
+//@   requires (property == "address" || property == "account") && operator == "$in" ==> is(value, []any) && forall j int :: {value.([]any)[j]} 0 <= j && j < len(value.([]any)) ==> is(value.([]any)[j], string)
 //@   requires property == "first_usage" ==> ordOps(operator)
 //@   requires (property == "first_usage") && is(value, string) ==> parsesTime(value.(string))
 //@   requires keyOf(property) == "balance" ==> numMapOps(operator)
 //@   requires keyOf(property) == "metadata" ==> strMapOps(operator)
+//@   ensures err != nil ==> isErr(err, common.ErrInvalidQuery) || isErr(err, ErrMissingFeature)
+
+//@ func assetAddressArray(v any) (r []string, err error)
+//@   property C38
+//@   requires is(v, []any) && forall j int :: {v.([]any)[j]} 0 <= j && j < len(v.([]any)) ==> is(v.([]any)[j], string)
+//@   ensures err != nil ==> isErr(err, common.ErrInvalidQuery)
+//@   loop 1:
+//@     invariant true
